@@ -176,6 +176,14 @@ def build_member(member, cfg):
         tf = tf.lower()   # an equivalent spelling: validate_timeframe upper-cases it
     if form == "obj":
         return build_obj(member, tf=tf)
+    if form == "obj_used":
+        # an Indicator object that has already calculated on candles of its own (its helper indicators exist and are attached to its
+        # own manager) before it is handed to the Hexital: still "given as an Indicator object"
+        rows = [(1_500_000_000 + 60 * i, 50.0 + (i * 7) % 5, 53.0 + (i * 7) % 5 + i % 3, 48.0 + (i * 7) % 5 - i % 2, 51.0 + (i * 5) % 6, 10 + i)
+                for i in range(14)]
+        o = build_obj(member, tf=tf, candles=cm.mk_candles(rows))
+        o.calculate()
+        return o
     if form == "settings":
         return build_obj(member, tf=tf).settings
     if form == "settings_full":
@@ -677,9 +685,9 @@ def gen_c08(rng, size=50, allow_hx_tf=True, allow_ha_member_tf=True, wide=False)
             if m["params"].get("candlestick_type") is True:
                 m["params"]["candlestick_type"] = "HA"
         if m["kind"] == "Amorph":
-            m["form"] = rng.choice(["obj", "dict", "dict_callable", "dict_args", "settings"])
+            m["form"] = rng.choice(["obj", "dict", "dict_callable", "dict_args", "settings", "obj_used"])
         else:
-            m["form"] = rng.choice(["obj", "dict", "settings", "settings_full"])
+            m["form"] = rng.choice(["obj", "dict", "settings", "settings_full", "obj_used"])
         if names_collide(members + [m], cfg):
             continue
         if m["form"].startswith("settings") and check_roundtrip({"spec": m, "tf": m["tf"], "cfg": cfg}) is not None:
